@@ -103,6 +103,17 @@ add("C09", "A-product + B-history", "DESIGN.md 2/C09",
     "Kernel: 7 chi x 5 n x 12 volume letters x 3 orientation-set pairs. Histories: all sequences to depth 2/3 from roots with strongly non-uniform volumes; every apply_gbs call of every update is observed.",
     "Seam-dependent clauses are skipped (reported) if the seam disappears; the black-box floor bound is always checked.")
 
+
+add("C14", "A-product + C-environment(virtual pool)", "DESIGN.md 2/C14",
+    "exhaustive product over systems x sets x frames x permutations x relabellings; stateless DFS over ALL completion orders of a virtual process pool for W = 1..16, bound to the real pool by conformance runs",
+    "Scalar clauses on every lattice system, set letter, frame rotation, permutation and symmetry relabelling; the theoretical density on every 1-degree bin. Batched variant: for stacks of 1..5 snapshots and every worker count 1..16 every completion order of the virtual pool "
+    "(schedule count cross-checked against an independent recurrence) is executed through pool= and through the module-level Pool factory; real multiprocessing.Pool runs must equal the model behaviour (traces_validated_against_impl).",
+    "The virtual pool encodes the documented ordering contracts of multiprocessing.Pool; reference angles only count pairs near a histogram bin edge.")
+add("C16", "B-history(files)", "DESIGN.md 2/C16",
+    "deviation-bounded exhaustive enumeration of (schema, delimiter, marker, fills, cells, rows) round trips on real files against a typed-row reference model, plus the single-fault list",
+    "All points with <=2 (thorough <=3) axes off their default over ten axes (351 type tuples incl. all 1-3 field tuples, 6 delimiters, 5 markers, fill and cell letters per type incl. YAML-hostile strings, row counts, containers); every single-fault corruption through save, header and on-disk edits must raise SCSVError.",
+    "Reference model ref/scsv_ref.py decides representability and the expected read-back.")
+
 NOT_YET = {}
 
 def main():
